@@ -22,6 +22,7 @@ _STUBS = ["hmac-sha512, sha256 and ripemd160 are uninterpreted functions (the le
 def _install(ex):
     pub = ex.uf("serP", 33, injective=True)
     add = ex.uf("pub_tweak_add", 33, injective=False)
+    is_inf = ex.uf("tweak_add_is_infinity", 1, injective=False)
 
     def bytes_from_prv_key_int(k, *a, **kw):
         out = pub(k.to_bytes(32, "big"))
@@ -35,6 +36,12 @@ def _install(ex):
 
         def tweak_add(self, tweak, compressed=True):
             inf = ex.fresh_var("infinity", 0, 1)
+            # whether K + t*G is the point at infinity is a function of (K, t): the same pair meets the same verdict wherever it is asked
+            verdict = is_inf(self.key + tweak)[0]
+            if not ex.concrete:
+                ex.assume(sor(sand(inf == 1, verdict == 1), sand(inf == 0, verdict != 1)))
+            else:
+                inf = 1 if verdict == 1 else 0
             if inf == 1:
                 raise BTClibValueError("the sum is the point at infinity")
             out = add(self.key + tweak)
@@ -99,19 +106,23 @@ def public_child(ex):
     I = _hmac512(cc, K + i.to_bytes(4, "big"))
     IL = I[:32]
     claims = {}
+    tweaks_ok = False
     try:
         tweaks = bip32.pub_key_derivation_tweaks(K, cc, [i])
         claims["tweaks_only_for_unhardened"] = i < H
         claims["tweak_is_IL"] = sand(len(tweaks) == 1, tweaks[0] == IL)
         claims["tweak_below_n"] = int.from_bytes(IL, "big") < N
+        claims["tweaks_answered_only_for_a_finite_child"] = ex.inputs_value("infinity!1") == 0
+        tweaks_ok = True
     except BTClibValueError:
         claims["tweaks_refused_only_hardened_or_invalid"] = sor(i >= H, int.from_bytes(IL, "big") >= N, ex.inputs_value("infinity!1") == 1)
     try:
         c = bip32._derive(parent, [i], None)
     except BTClibValueError:
         claims["derive_refused_only_hardened_or_invalid"] = sor(i >= H, int.from_bytes(IL, "big") >= N, ex.inputs_value("infinity!2") == 1, ex.inputs_value("infinity!1") == 1)
+        claims["derive_refuses_only_what_the_tweaks_refuse"] = not tweaks_ok
         return claims
-    claims.update({"derive_only_unhardened": i < H, "left_half_below_n": int.from_bytes(IL, "big") < N,
+    claims.update({"derive_answers_only_what_the_tweaks_answer": tweaks_ok, "derive_only_unhardened": i < H, "left_half_below_n": int.from_bytes(IL, "big") < N,
                    "child_key_is_tweak_add": c.key == add(K + IL), "chain_code_is_IR": c.chain_code == I[32:],
                    "depth_plus_one": c.depth == depth + 1, "index_recorded": c.index == i,
                    "fingerprint_is_hash160_of_parent_pubkey": c.parent_fingerprint == _hashes.hash160(K)[:4]})
